@@ -126,13 +126,69 @@ J gen_meta(uint64_t seed, bool thorough, Rng &r, int nw) {
   return plan;
 }
 
+// ------------------------------------------------------------------------------------------------ multiple-walker OPES (generator)
+J gen_opes(uint64_t seed, bool thorough, Rng &r, int nw) {
+  J plan = J::obj();
+  plan["v"] = 1; plan["property"] = "C14"; plan["seed"] = (long long)seed;
+  EngineCfg ec;
+  ec.natoms = (int)r.range(8, 14);
+  ec.data_seed = r.next() >> 12; ec.noise_seed = r.next() >> 12;
+  ec.dt = 1.0; ec.temperature = 300.0; ec.forces_late = false;
+  ec.traj_amp = r.uniform(0.4, 1.0);
+  long T = r.range(6, thorough ? 36 : 18);
+  int ncv = (int)r.range(1, 2);
+  std::vector<CvSpec> cvs; std::string sig, sg;
+  static const char *kinds[] = {"distance", "distanceZ", "distanceXY", "angle"};
+  for (int i = 0; i < ncv; i++) {
+    CvSpec cv = make_cv(r, ec.natoms, kinds[r.below(4)], i ? "two" : "one");
+    double lo = 1e300, hi = -1e300;
+    for (int w = 0; w < nw; w++) { TrajModel m; m.build(ec.data_seed + (uint64_t)w * 7919, ec.natoms, ec.traj_amp, ec.force_amp, false); double a, b; cv_range(cv, m, T, a, b); lo = std::min(lo, a); hi = std::max(hi, b); }
+    cv.width = std::max(1e-3, std::round((hi - lo) * 100) / 1000);
+    cvs.push_back(cv); sig += (i ? "+" : "") + cv.kind;
+    double s0 = std::max(1e-3, std::round((hi - lo) * r.uniform(0.08, 0.3) * 1000) / 1000);
+    sg += " " + num(s0);
+  }
+  int pace = (int)r.range(1, 4);
+  std::string cvconf; for (auto &c : cvs) cvconf += c.config();
+  // fixed kernel width and no compression: the kernel list is then exactly the list of deposits, in order
+  std::string opes = "opes_metad {\n  name opes\n  colvars " + join_names(cvs) + "\n  newHillFrequency " + std::to_string(pace) + "\n  barrier " + num(std::round(r.uniform(5, 30))) +
+                     "\n  gaussianSigma" + sg + "\n  fixedGaussianSigma on\n  compressionThreshold 0\n  multipleReplicas on\n  sharedFreq " + std::to_string(r.range(1, 5)) +
+                     (r.chance(0.3) ? "\n  explore on" : "") + (r.chance(0.3) ? "\n  neighborList on" : "") + "\n}\n";
+  J sc = J::obj();
+  sc["template"] = "mw_opes:" + sig; sc["mode"] = "opes";
+  J e = J::obj(); ec.to_json(e); sc["engine"] = e;
+  sc["T"] = (long long)T; sc["walkers"] = nw; sc["pace"] = pace;
+  sc["config"] = global_config(1, (int)r.range(0, 6), false) + cvconf + opes;
+  J cvj = J::arr();
+  for (auto &c : cvs) { J o = J::obj(); o["kind"] = c.kind; J gs = J::arr(); for (auto &g : c.groups) { J ga = J::arr(); for (int id : g) ga.push(J(id)); gs.push(ga); } o["groups"] = gs; cvj.push(o); }
+  sc["cvs"] = cvj;
+  plan["scenario"] = sc;
+  // the whole job runs in lock-step (every deposit is a collective operation); it may stop and restart together once
+  J ops = J::arr();
+  // (no stop/restart here: an OPES state holds the snapshot of the last restart-frequency step, not the current kernels - recorded finding
+  // C03-OPES-STALE-SNAPSHOT - so what a restarted job should hold is C03's subject)
+  long cut = 0;
+  for (int w = 0; w < nw; w++) {
+    if (cut) { J a = J::obj(); a["w"] = w; a["op"] = "run"; a["n"] = (long long)cut; a["end"] = "graceful"; ops.push(a); J rs = J::obj(); rs["w"] = w; rs["op"] = "resume"; ops.push(rs); }
+    J b = J::obj(); b["w"] = w; b["op"] = "run"; b["n"] = (long long)(T - cut); b["end"] = "graceful"; ops.push(b);
+  }
+  plan["ops"] = ops;
+  J sched = J::arr();
+  int ns = (int)r.range(20, 400);
+  for (int i = 0; i < ns; i++) sched.push(J((long long)(r.chance(0.45) ? 0 : r.range(1, 5))));
+  plan["sched"] = sched;
+  return plan;
+}
+
 J gen(uint64_t seed, bool thorough) {
   Rng r(seed, 14);
   J plan = J::obj();
   plan["v"] = 1; plan["property"] = "C14"; plan["seed"] = (long long)seed;
-  std::string mode = r.chance(0.5) ? "abf" : "meta";
+  double um = r.unit();
+  std::string mode = um < 0.42 ? "abf" : um < 0.84 ? "meta" : "opes";
   int nw = (int)r.range(2, mode == "meta" && !thorough ? 3 : 4);
   if (mode == "meta") return gen_meta(seed, thorough, r, nw);
+  if (mode == "opes") return gen_opes(seed, thorough, r, nw);
   EngineCfg ec;
   ec.natoms = (int)r.range(8, 14);
   ec.data_seed = r.next() >> 12; ec.noise_seed = r.next() >> 12;
@@ -626,10 +682,107 @@ void run_meta(J const &plan, RunResult &res) {
   sim.finish(res);
 }
 
+// ------------------------------------------------------------------------------------------------ multiple-walker OPES
+// Every deposit is a collective operation: each walker contributes one kernel, centred at its own variables, and every walker appends
+// all of them in replica order.  With a fixed width and no compression the kernel list of every walker is therefore, after every step,
+// exactly the list of all walkers' deposits so far - each once, in order.
+void run_opes(J const &plan, RunResult &res) {
+  J const &sc = plan.at("scenario");
+  EngineCfg base; base.from_json(sc.at("engine"));
+  int nw = (int)sc.at("walkers").as_int(2);
+  long T = (long)sc.at("T").as_int(10); int pace = (int)sc.at("pace").as_int(1);
+  std::string config = sc.at("config").as_str();
+  std::vector<CvSpec> cvspec;
+  for (auto const &o : sc.at("cvs").a) { CvSpec c; c.kind = o.at("kind").as_str(); for (auto const &g : o.at("groups").a) { std::vector<int> ids; for (auto const &id : g.a) ids.push_back((int)id.as_int()); c.groups.push_back(ids); } cvspec.push_back(c); }
+  std::vector<TrajModel> traj((size_t)nw);
+  for (int w = 0; w < nw; w++) traj[(size_t)w].build(base.data_seed + (uint64_t)w * 7919, base.natoms, base.traj_amp, base.force_amp, false);
+  std::vector<int> sched; for (auto const &v : plan.at("sched").a) sched.push_back((int)v.as_int());
+  uint64_t fp = 1469598103934665603ULL;
+  SimRun sim(nw, sched, 1, 4000000);
+  std::vector<Walker> ws((size_t)nw);
+  // model: the deposits so far (step of each block of nw kernels), the same for every walker
+  std::vector<long> deposit_steps;                 // built by whichever walker gets there first; checked by all
+  std::vector<size_t> held((size_t)nw, 0);         // kernels held by each walker after its last step
+  std::vector<bool> first_of_instance((size_t)nw, true);
+  long checks = 0, deposits_seen = 0;
+  for (int w = 0; w < nw; w++) {
+    Walker &W = ws[(size_t)w];
+    W.w = w; W.ec = base; W.ec.walker = w; W.ec.n_walkers = nw; W.ec.data_seed = base.data_seed + (uint64_t)w * 7919; W.config = config;
+    for (auto const &op : plan.at("ops").a) if ((int)op.at("w").as_int() == w) W.ops.push_back(op);
+    W.on_new_instance = [&](Walker &X) { X.e->record = false; first_of_instance[(size_t)X.w] = true; };
+    W.after_step = [&](Walker &X, long step) {
+      if (res.violation) return;
+      Engine *e = X.e;
+      if (e->colvars->biases.empty()) return;
+      colvarbias_opes *ob = dynamic_cast<colvarbias_opes *>(e->colvars->biases[0]);
+      if (!ob) return;
+      auto const &ker = colvars_verif_access::opes_kernels(ob);
+      std::string who = "walker " + std::to_string(X.w) + " step " + std::to_string(step);
+      // deposits are due on multiples of newHillFrequency, except on the first evaluation of an instance (a repeated step after a restart)
+      bool due = step % pace == 0 && !first_of_instance[(size_t)X.w];
+      first_of_instance[(size_t)X.w] = false;
+      size_t before = held[(size_t)X.w], now = ker.size();
+      std::string where = X.resumes ? "/after_resume" : "";
+      if (now != before + (due ? (size_t)nw : 0)) {
+        res.fail("opes_union", std::string(now > before + (due ? (size_t)nw : 0) ? "too_many_kernels" : "kernels_missing") + where,
+                 who + ": holds " + std::to_string(now) + " kernels, " + std::to_string(before) + " before this step; " + (due ? std::to_string(nw) + " deposits (one per walker) were due" : "no deposit was due"));
+        return;
+      }
+      if (due) {
+        size_t block = before / (size_t)nw;
+        if (block >= deposit_steps.size()) deposit_steps.push_back(step);
+        if (deposit_steps[block] != step) { res.fail("opes_union", "deposit_step" + where, who + ": block " + std::to_string(block) + " of its kernels was deposited at step " + std::to_string(step) + ", by another walker at step " + std::to_string(deposit_steps[block])); return; }
+        deposits_seen++;
+      }
+      // the whole list: block b holds the kernels of walkers 0..nw-1 at deposit step b
+      for (size_t q = 0; q < now && !res.violation; q++) {
+        size_t block = q / (size_t)nw; int v = (int)(q % (size_t)nw);
+        if (block >= deposit_steps.size()) { res.fail("opes_union", "unknown_block" + where, who); return; }
+        for (size_t i = 0; i < cvspec.size(); i++) {
+          double want = cvspec[i].eval(traj[(size_t)v], deposit_steps[block]);
+          if (ker[q].m_center.size() != cvspec.size() || std::fabs(ker[q].m_center[i] - want) > 1e-9 * (1 + std::fabs(want))) {
+            res.fail("opes_union", "kernel_is_not_the_deposit_of_its_walker" + where, who + ": kernel " + std::to_string(q) + " (block " + std::to_string(block) + ", replica " + std::to_string(v) + ") is centred at " +
+                     fmt_double(i < ker[q].m_center.size() ? ker[q].m_center[i] : 0) + "; walker " + std::to_string(v) + " was at " + fmt_double(want) + " at step " + std::to_string(deposit_steps[block]));
+            return;
+          }
+        }
+        if (!(ker[q].m_height > 0) || !std::isfinite(ker[q].m_height)) { res.fail("opes_union", "kernel_height" + where, who + ": kernel " + std::to_string(q) + " has height " + fmt_double(ker[q].m_height)); return; }
+        fp = fnv_dbl(ker[q].m_height, fp);
+      }
+      unsigned long long cnt = colvars_verif_access::opes_counter(ob);
+      if (cnt != 1ULL + (unsigned long long)now) { res.fail("opes_union", "counter" + where, who + ": " + std::to_string(cnt) + " kernels counted, " + std::to_string(now) + " held (one is the initial one)"); return; }
+      held[(size_t)X.w] = now; checks++;
+    };
+  }
+  walkers_reset(nw);
+  run_walkers(ws);
+  for (auto &W : ws) {
+    if (!W.fail.empty() && !res.violation) { res.counters["probe.walker_failed"]++; res.detail = W.fail; }
+    if (W.e) add_steps(res, *W.e);
+    for (auto *a : W.abandoned) add_steps(res, *a);
+    res.counters["probe.resumes"] += W.resumes;
+    if (W.halts && !res.violation) res.fail("opes_union", "walker_halted_on_error", "walker " + std::to_string(W.w) + ": " + W.last_halt);
+  }
+  SchedStats const &ss = sched_stats();
+  if (ss.deadlock && !res.violation) res.fail("deadlock", "mw_opes", "no walker could make progress");
+  res.counters["probe.opes_list_checks"] += checks;
+  res.counters["probe.opes_deposits_seen"] += deposits_seen;
+  res.counters["net.messages"] += (long long)net().sent;
+  res.counters["net.barriers"] += (long long)net().barriers;
+  res.nontrivial = deposits_seen > 0;
+  uint64_t sh = 5;
+  for (size_t i = 0; i < sched.size() && i < 16; i++) sh = fnv_u64((uint64_t)sched[i], sh);
+  res.class_hash = fnv_str(sc.at("template").as_str(), fnv_u64((uint64_t)nw, fnv_u64((uint64_t)ws[0].resumes, fnv_u64((uint64_t)pace, sh))));
+  res.fingerprint = fp;
+  (void)T;
+  sim.finish(res);
+}
+
 RunResult run(J const &plan) {
   RunResult res;
   std::string mode = plan.at("scenario").at("mode").as_str();
   if (mode == "abf") run_abf(plan, res);
+  else if (mode == "opes") run_opes(plan, res);
   else run_meta(plan, res);
   res.counters["probe.mode_" + mode]++;
   if (res.violation) res.features = mode + "+" + config_features(plan.at("scenario").at("config").as_str());
